@@ -368,7 +368,8 @@ def o_c04(recs):
             # unstaged" (a path whose parent has become a file no longer exists either)
             sb0 = staged(b)
             gone_tracked = (st.name == "add" and args and len(set(args)) == len(args)
-                            and all(x in sb0 and x not in b.files and x not in b.dirs for x in args))
+                            and all((x in sb0 or any(under(x, q) for q in sb0)) and x not in b.files and x not in b.dirs for x in args)
+                            and not any(x != y and (under(x, y) or under(y, x)) for x in args for y in args))
             if not gone_tracked:
                 continue
         if st.name == "add":
